@@ -152,11 +152,14 @@ func (r *Router) NewIQResultRoute(ctx context.Context, id string) chan stanza.IQ
 	r.IQResultRouteLock.Unlock()
 
 	// Start a go function to make sure the route is unregistered when the context
-	// is done.
+	// is done. The id may have been registered again meanwhile (a caller that retries
+	// its request as soon as the context is over): that entry is not ours to remove.
 	go func() {
 		<-route.context.Done()
 		r.IQResultRouteLock.Lock()
-		delete(r.IQResultRoutes, id)
+		if r.IQResultRoutes[id] == route {
+			delete(r.IQResultRoutes, id)
+		}
 		r.IQResultRouteLock.Unlock()
 	}()
 
